@@ -64,6 +64,21 @@ let mediatype_line h =
   let ((mt, hasmap), params) = DispatchModel.mediatype (hexd h) in
   Printf.sprintf "mt=%s hasmap=%s params=%s" (hexe mt) (if hasmap then "1" else "0") (canon_params params)
 
+(* ---- TokenBuffer ---- *)
+let tokbuf toks ops =
+  let l = if toks = "" then [] else Stdlib.List.map (fun t -> z_of_int (int_of_string t)) (split ',' toks) in
+  let z = ref (BufModel.tb_init l) in
+  let outs = ref [] in
+  (try
+    Stdlib.List.iter (fun o ->
+      let r = if o = "S" then BufModel.shift !z
+              else BufModel.peek !z (nat_of_int (int_of_string (Stdlib.String.sub o 1 (sl o - 1)))) in
+      match r with
+      | Some (t, z') -> z := z'; outs := string_of_int (int_of_z t) :: !outs
+      | None -> outs := "PANIC" :: !outs; raise Exit) (if ops = "" then [] else split ',' ops)
+  with Exit -> ());
+  Stdlib.String.concat "," (Stdlib.List.rev !outs)
+
 (* ---- Stream ---- *)
 let parse_script s =
   if s = "" then [] else
@@ -101,4 +116,5 @@ let register (reg : string -> (string list -> string) -> unit) =
   reg "datauri" (function [o; m; d] -> hexe (DataUriModel.datauri_encode (hexd o) (hexd m) (hexd d)) | _ -> "BADARGS");
   reg "mediatype_min" (function [m] -> hexe (DataUriModel.mediatype_min (hexd m)) | _ -> "BADARGS");
   reg "stream" (function [e; p; w; en; sc; wf] -> stream_case e p w en sc wf | _ -> "BADARGS");
+  reg "tokbuf" (function [t; o] -> tokbuf t o | _ -> "BADARGS");
   reg "json_tree" (function [t] -> show_events (JsonSpec.events_of JsonModel.SValue (parse_tree t)) | _ -> "BADARGS")
